@@ -111,6 +111,51 @@ func runOne(ctx context.Context, sp solverSpec, text string, timeoutS int, wantM
 	return v
 }
 
+// SolveOther asks the solvers other than `except` (thorough tier: a proof must be
+// confirmed by a second, different solver).
+func SolveOther(text, except string, timeoutS int) Verdict {
+	h := sha256.Sum256([]byte("other:" + except + text))
+	key := hex.EncodeToString(h[:])
+	cf := filepath.Join(cacheDir, key[:2], key+".json")
+	if b, err := os.ReadFile(cf); err == nil {
+		var v Verdict
+		if json.Unmarshal(b, &v) == nil && (v.Status == "unsat" || v.Status == "sat") {
+			v.Cached = true
+			return v
+		}
+	}
+	ctx, cancel := context.WithCancel(context.Background())
+	defer cancel()
+	var others []solverSpec
+	for _, sp := range solvers {
+		if !strings.HasPrefix(except, sp.name) {
+			others = append(others, sp)
+		}
+	}
+	ch := make(chan Verdict, len(others))
+	for _, sp := range others {
+		sp := sp
+		go func() { ch <- runOne(ctx, sp, text, timeoutS, false) }()
+	}
+	last := Verdict{Status: "unknown"}
+	for range others {
+		r := <-ch
+		if r.Status == "unsat" || r.Status == "sat" {
+			last = r
+			break
+		}
+		last = r
+	}
+	if last.Status == "unsat" || last.Status == "sat" {
+		cacheMu.Lock()
+		os.MkdirAll(filepath.Dir(cf), 0o755)
+		b, _ := json.Marshal(last)
+		os.WriteFile(cf, b, 0o644)
+		cacheMu.Unlock()
+	}
+	return last
+}
+
 // Solve decides one query. quickT is the first-stage timeout, slowT the
 // portfolio timeout.
 func Solve(text string, quickT, slowT int, wantModel bool) Verdict {
